@@ -142,6 +142,22 @@ func probeAlloc(ctx0 context.Context, engine string, h *History) {
 			for k := 0; k < 3; k++ {
 				_, _ = b.ExportedFunction("load").Call(ctx, 8)
 			}
+		} else if doClose && strings.HasPrefix(h.Probe, "alloc-dupfail") {
+			// an importer whose instantiation FAILS after its imports were resolved (the name "b" is taken): the
+			// half-made instance is closed by the runtime and must not give up a share of the memory it never held.
+			// alloc-dupfail: b (a live importer) is closed first, so the failing one is the only other party;
+			// alloc-dupfail-live: b stays alive during the failure and is closed afterwards.
+			if h.Probe == "alloc-dupfail" {
+				b.Close(ctx)
+				if _, err := r.InstantiateWithConfig(ctx, allocB(), wazero.NewModuleConfig().WithName("a")); err == nil {
+					panic("duplicate name accepted")
+				}
+			} else {
+				if _, err := r.InstantiateWithConfig(ctx, allocB(), wazero.NewModuleConfig().WithName("b")); err == nil {
+					panic("duplicate name accepted")
+				}
+				b.Close(ctx)
+			}
 		} else if doClose {
 			dead.Close(ctx)
 		}
